@@ -11,7 +11,7 @@ from pathlib import Path
 import codec
 
 PROP = "C01"
-LEAN_MODULES = ["Props.C01", "Props.C01F", "Props.Legacy"]
+LEAN_MODULES = ["Props.C01", "Props.C01F", "Props.C01E", "Props.Legacy"]
 RULE = (
     "case = (positional layout of 1-8 fields of mixed kinds in any order with gaps, value list, optional construction "
     "history through the Line setters incl. intermediate delimited use). The real Line writes the values, reads the "
@@ -30,8 +30,7 @@ ASSUMPTIONS = [
     "half-unit accuracy is claimed (and checked) only under |x|*10^D < 2^51; outside it the double rounding of round()+format() can exceed half a unit, text equality with the exact model is still required",
 ]
 TRUSTED = ["CPython round()/format()/float()/int()/strftime/strptime are correctly rounded / as documented; the model computes the same results exactly and is compared with them on every case"]
-NOT_THEOREMS = ['stability clause (rewritten == written) for float fields in E notation (F notation is proved, the decimals-dropping loop included: Props.C01.law_flt_F_gen, main_F): render(parse(render x)) = render x is a hypothesis (RenderLaw, third clause) of Props.C01.line_stable, validated here by exact text equality with the model on every case; the read-back clause IS a theorem for every layout without date fields in Spec.C01.inDomain (Props.C01.readBack_of_inDomain)',
-                
+NOT_THEOREMS = ['stability clause (rewritten == written) for E-notation float fields holding zero, a subnormal or tiny value (below 2^-948) or a value of 2^1013 and more: render(parse(render x)) = render x is a hypothesis (RenderLaw, third clause) of Props.C01.line_stable for those, validated here by exact text equality with the model on every case. It IS a theorem for F notation (every finite double below 2^1013, the decimals-dropping loop included: Props.C01.law_flt_F_gen, main_F) and for E notation with normal doubles between 2^-948 and 2^1013 (Props.C01.law_flt_E, main_FE); the read-back clause is a theorem for every layout in Spec.C01.inDomain (Props.C01.readBack_of_inDomain)',
                 'Spec.C01.floatClauses (dialect, half-unit accuracy, maximal decimals) for E-notation floats: evaluated per case (F notation: theorem Props.C01.main_F_full)']
 EXHAUSTIVE = {"quick": False, "thorough": False}
 
